@@ -146,11 +146,20 @@ def worker(args, scratch):
                 bump("summary_getter_checks")
                 bump("denials_recorded_total", sum(ms.values()))
                 try:
-                    with open(os.path.join(status_dir, "status.json")) as f:
-                        sj = json.load(f)
-                    fs = summary_multiset(sj.get("failedAuthenticateSummary", []))
-                    for ak in ambiguous_keys:
-                        fs.pop(ak, None)
+                    # the status task rewrites the file every 40 ms; on a loaded machine the file may lag: poll (logical condition, generous watchdog)
+                    t_w = time.time()
+                    while True:
+                        try:
+                            with open(os.path.join(status_dir, "status.json")) as f:
+                                sj = json.load(f)
+                        except (OSError, ValueError):
+                            sj = {}
+                        fs = summary_multiset(sj.get("failedAuthenticateSummary", []))
+                        for ak in ambiguous_keys:
+                            fs.pop(ak, None)
+                        if fs == expected_denials or time.time() - t_w > 5:
+                            break
+                        time.sleep(0.05)
                     if fs != expected_denials:
                         res["violations"].append(["status-file-failed-summary-mismatch:%s" % mode, {"endpoint": endpoint, "mode": mode,
                                                   "missing": {str(k): v for k, v in (expected_denials - fs).items()}, "extra": {str(k): v for k, v in (fs - expected_denials).items()}}])
